@@ -17,6 +17,7 @@ type ProgCase struct {
 	Profile string         `json:"profile,omitempty"`
 	Layout  string         `json:"layout,omitempty"`
 	Classes map[string]int `json:"gen_classes,omitempty"`
+	Shebang bool           `json:"from_file_with_shebang_line,omitempty"`
 }
 
 // Gen draws a program of the profile and a layout.
@@ -48,7 +49,12 @@ func clip(s string, n int) string {
 // the case counts as non-trivial and under which signature it is distinct ("" = by source text).
 func Oracle(nontrivial func(c *ProgCase, r *e1.ROutcome) (bool, string)) func(k *vf.C, c *ProgCase) error {
 	return func(k *vf.C, c *ProgCase) error {
-		v, detail, r, g := e1.Diff(c.Src)
+		diff := e1.Diff
+		if c.Shebang {
+			diff = e1.DiffShebang
+			k.Class("run:loaded_from_file_with_shebang_line")
+		}
+		v, detail, r, g := diff(c.Src)
 		switch v {
 		case e1.Discard:
 			d := detail
